@@ -53,6 +53,11 @@ def scenarios(tier):
         st = [{"op": "setitem", "h": 0, "path": [], "args": ["first", {"x": [1, 2, 3]}]}] if c.endswith("Dict") else \
             [{"op": "append", "h": 0, "path": [], "args": [{"first": [1, 2, 3]}]}]
         S.append(("first_write_missing_file", c, 1, st))
+    for c in ("JSONDict", "JSONList", "MemoryBufferedJSONDict"):
+        # the save is made through a copy.deepcopy() of the object that was configured (write_concern ...)
+        st = [{"op": "setitem", "h": 0, "path": [], "args": ["new", {"x": [1, 2, 3]}]}] if c.endswith("Dict") else \
+            [{"op": "append", "h": 0, "path": [], "args": [{"new": [1, 2, 3]}]}]
+        S.append(("deepcopied_handle", c, 1, st))
     for c in ("JSONDict", "BufferedJSONDict"):
         # the file name is a symbolic link to the data file
         S.append(("symlinked_file", c, 1, [{"op": "setitem", "h": 0, "path": [], "args": ["new", {"x": [1, 2, 3]}]}]))
@@ -80,7 +85,7 @@ def plan(tier, seed):
     for si, (name, cls, nfiles, steps) in enumerate(sc):
         for ci, cfg in enumerate(ATOMIC_CFGS):
             if tier == "quick" and (si + ci + seed) % 3 != 0 and name not in ("root_setitem", "backend_flush_3",
-                                                                               "first_write_missing_file", "symlinked_file"):
+                                                                               "first_write_missing_file", "symlinked_file", "deepcopied_handle"):
                 continue  # quick: each scenario in one configuration (rotating with the seed)
             specs.append({"kind": "crash", "scenario": si, "cfg": cfg, "tier": tier, "seed": seed})
     specs.append({"kind": "control", "tier": tier, "seed": seed})
@@ -95,7 +100,7 @@ INIT_L = [1, "two", [3, 4], {"five": 5}]
 class World:
     """Files with old content, objects, the action and the expected new contents."""
 
-    def __init__(self, cls_name, cfg, nfiles, steps, missing=False, symlink=False):
+    def __init__(self, cls_name, cfg, nfiles, steps, missing=False, symlink=False, deepcopied=False):
         self.info = catalog.info(cls_name)
         self.cls = self.info.cls()
         self.cfg = cfg
@@ -130,6 +135,8 @@ class World:
         self.objs = [r.new_handle(write_concern=cfg["wc"]) for r in self.res]
         for o in self.objs:
             o()  # loaded, as in normal use
+        if deepcopied:
+            self.objs = [copy.deepcopy(o) for o in self.objs]
 
     def reset_files(self):
         for f in os.listdir(self.scratch):
@@ -289,7 +296,7 @@ def run_shard(spec):
     if spec["kind"] == "crash":
         name, cls, nfiles, steps = scenarios(spec["tier"])[spec["scenario"]]
         world = World(cls, spec["cfg"], nfiles, steps, missing=name == "first_write_missing_file",
-                      symlink=name == "symlinked_file")
+                      symlink=name == "symlinked_file", deepcopied=name == "deepcopied_handle")
         sample = {"scenario": name, "cls": cls, "cfg": spec["cfg"], "files": nfiles, "steps": steps}
         try:
             sweep(world, spec["tier"], out, {"cls": cls, "scenario": name, "stratum": "atomic"}, sample)
@@ -404,7 +411,8 @@ def replay(case):
         return [v for v in out["violations"] if v["case"].get("op") == case.get("op") and v["case"].get("cls") == case.get("cls")]
     world = World(case["cls"], case["cfg"], case["files"], case["steps"],
                   missing=case.get("scenario") == "first_write_missing_file",
-                  symlink=case.get("scenario") == "symlinked_file")
+                  symlink=case.get("scenario") == "symlinked_file",
+                  deepcopied=case.get("scenario") == "deepcopied_handle")
     try:
         how, _ = inject.run_in_child(world.scratch, world.action, tuple(case["point"]))
         v = world.judge()
